@@ -134,20 +134,8 @@ fn wellformed_k<K: Kind>(c: &FileCase, ctx: &mut Ctx) -> Result<(), Fail> {
             ctx.class("disk-route");
             let p = scratch_shp("c02", shapes.len() + c.mid_fins as usize);
             {
-                let mut w = shapefile::ShapeWriter::from_path(&p).map_err(|e| Fail::new("write-error", err_str(&e)))?;
-                if c.fin == Finish::WriteShapes {
-                    w.write_shapes(shapes.iter()).map_err(|e| Fail::new("write-error", err_str(&e)))?;
-                } else {
-                    for (i, s) in shapes.iter().enumerate() {
-                        w.write_shape(s).map_err(|e| Fail::new("write-error", err_str(&e)))?;
-                        if c.mid_fins & (1 << (i % 32)) != 0 {
-                            w.finalize().map_err(|e| Fail::new("write-error", err_str(&e)))?;
-                        }
-                    }
-                    if c.fin == Finish::FinalizeDrop {
-                        w.finalize().map_err(|e| Fail::new("write-error", err_str(&e)))?;
-                    }
-                }
+                let w = shapefile::ShapeWriter::from_path(&p).map_err(|e| Fail::new("write-error", err_str(&e)))?;
+                drive_writer(w, &shapes, c.fin, c.mid_fins).map_err(|e| Fail::new("write-error", e))?;
             }
             (std::fs::read(&p).map_err(|e| Fail::new("disk-io", e.to_string()))?, None)
         } else {
@@ -248,16 +236,8 @@ fn index_k<K: Kind>(c: &FileCase, ctx: &mut Ctx) -> Result<(), Fail> {
         ctx.class("disk-route");
         let p = scratch_shp("c04", shapes.len() + c.mid_fins as usize);
         {
-            let mut w = shapefile::ShapeWriter::from_path(&p).map_err(|e| Fail::new("write-error", err_str(&e)))?;
-            for (i, s) in shapes.iter().enumerate() {
-                w.write_shape(s).map_err(|e| Fail::new("write-error", err_str(&e)))?;
-                if c.mid_fins & (1 << (i % 32)) != 0 {
-                    w.finalize().map_err(|e| Fail::new("write-error", err_str(&e)))?;
-                }
-            }
-            if c.fin == Finish::FinalizeDrop {
-                w.finalize().map_err(|e| Fail::new("write-error", err_str(&e)))?;
-            }
+            let w = shapefile::ShapeWriter::from_path(&p).map_err(|e| Fail::new("write-error", err_str(&e)))?;
+            drive_writer(w, &shapes, c.fin, c.mid_fins).map_err(|e| Fail::new("write-error", e))?;
         }
         let a = std::fs::read(&p).map_err(|e| Fail::new("disk-io", e.to_string()))?;
         let b = std::fs::read(p.with_extension("shx")).map_err(|e| Fail::new("disk-io", e.to_string()))?;
